@@ -126,6 +126,29 @@ func loadProg(dir string, goos, goarch string) (*Prog, error) {
 		}
 	}
 	sort.Slice(p.Pkgs, func(i, j int) bool { return p.Pkgs[i].PkgPath < p.Pkgs[j].PkgPath })
+	// registry of module types without Unwrap/Is methods (for errors.Is on literals)
+	noUnwrap := map[string]bool{}
+	for _, pk := range pkgs {
+		sc := pk.Types.Scope()
+		for _, nm := range sc.Names() {
+			tn, ok := sc.Lookup(nm).(*types.TypeName)
+			if !ok {
+				continue
+			}
+			for _, T := range []types.Type{tn.Type(), types.NewPointer(tn.Type())} {
+				ms := types.NewMethodSet(T)
+				has := false
+				for i := 0; i < ms.Len(); i++ {
+					if n := ms.At(i).Obj().Name(); n == "Unwrap" || n == "Is" {
+						has = true
+					}
+				}
+				name := p.typeStr(T)
+				noUnwrap[name] = !has
+			}
+		}
+	}
+	typeHasNoUnwrapIs = func(s string) bool { return noUnwrap[s] }
 	return p, nil
 }
 
